@@ -192,7 +192,12 @@ pub fn run(ctx: &mut Ctx) {
     let mut mk = |p: &mut Prng, i: usize| -> Option<Sample> {
         let d = key_for(p, (i % 40) as u64);
         let pk = r2::mul(&d, &r2::g())?;
-        let (id, id_str) = match i % 3 {
+        let (id, id_str) = match i % 4 {
+            3 => {
+                let l = p.range(1, 12);
+                let s = utf8_id(p, l);
+                (Some(leak(s.clone())), s)
+            }
             0 => (None, DEFAULT_ID.to_string()),
             1 => {
                 let l = p.range(0, 40);
